@@ -620,7 +620,7 @@ def check(ctx):
     from . import c13b
     c13b.check(ctx)
     ctx.floor("R13.7", 5)
-    ctx.floor("R13.9", 3)
+    ctx.floor("R13.9", 6)
     ctx.floor("R13.10", 5)
     ctx.floor("R13.11", 2)
     ctx.floor("R13.1", 11)
